@@ -465,9 +465,10 @@ def regex_suite(ctx, name, lines, res):
     for ln, rl, ml in zip(lines, real, model):
         c = json.loads(ln); r = json.loads(rl); m = json.loads(ml)
         res.stats['cases'] += 1; info['cases'] += 1
-        if 'unsupported' in m: res.stats['skip:regex_unsupported'] += 1; continue
         if status_of(r) in ('panic', 'abort', 'timeout'):
-            res.violations.append({'suite': name, 'mode': 'regex', 'case': c, 'real': r, 'model': m, 'why': status_of(r)}); continue
+            res.violations.append({'suite': name, 'mode': 'regex', 'case': c, 'real': r, 'model': m, 'why': status_of(r)}); info['violations'] += 1; continue
+        if ctx.prop == 'C08': res.nontrivial.add(chash(c)); continue      # C08 looks at crashes only
+        if 'unsupported' in m: res.stats['skip:regex_unsupported'] += 1; continue
         res.stats['regex_true' if r.get('m') else 'regex_false'] += 1
         if r.get('m'): res.nontrivial.add(chash(c))
         if r.get('m') != m.get('m'):
@@ -551,8 +552,9 @@ def generic_suite(ctx, name, lines, res, only_rev=False):
     rv = run_sharded(HBIN, 'eval', hl)
     rg1 = rv if only_rev else run_sharded(HBIN, 'generic', hl)       # second Queryable type, structural PartialEq, Default = {}
     rg2 = rv if only_rev else run_sharded(HBIN, 'generic2', hl)      # third Queryable type, PartialEq by JSON value, Default = "default"
+    rg3 = rv if only_rev else run_sharded(HBIN, 'generic3', hl)      # fourth Queryable type: equal member values stored once and shared (Rc)
     model = run_sharded(MBIN, 'eval', lines)
-    assert len(rv) == len(rg1) == len(rg2) == len(model) == len(lines)
+    assert len(rv) == len(rg1) == len(rg2) == len(rg3) == len(model) == len(lines)
     # member order is part of the view: the same type holding every object's members in REVERSE name order must give what the model gives on the
     # reordered document (serde_json's map is sorted, so `Value` itself can never show a dependence on some other order)
     rev_idx = [i for i, l in enumerate(lines) if '{' in l.split('"tdoc"')[0].split('"doc"', 1)[-1]]
@@ -562,8 +564,8 @@ def generic_suite(ctx, name, lines, res, only_rev=False):
     rrev = dict(zip(rev_idx, run_sharded(HBIN, 'generic', [harness_line(l) for l in rev_lines])))
     mrev = dict(zip(rev_idx, run_sharded(MBIN, 'eval', rev_lines)))
     info = collections.Counter()
-    for idx, (ln, a, b1, b2, ml) in enumerate(zip(lines, rv, rg1, rg2, model)):
-        c = json.loads(ln); a = json.loads(a); b1 = json.loads(b1); b2 = json.loads(b2); m = json.loads(ml)
+    for idx, (ln, a, b1, b2, b3, ml) in enumerate(zip(lines, rv, rg1, rg2, rg3, model)):
+        c = json.loads(ln); a = json.loads(a); b1 = json.loads(b1); b2 = json.loads(b2); b3 = json.loads(b3); m = json.loads(ml)
         res.stats['cases'] += 1; info['cases'] += 1
         if idx in rrev:
             br = json.loads(rrev[idx]); mr = json.loads(mrev[idx])
@@ -582,7 +584,8 @@ def generic_suite(ctx, name, lines, res, only_rev=False):
         if 'impl' not in m: res.stats['skip:model_gave_no_answer'] += 1; continue
         pm = proj_eval('C15', m['impl'])
         if pa[0] == 'ok' and pa[1]: res.nontrivial.add(chash([c['q'], c['doc']]))
-        for which, b in (('structural-eq type', b1), ('value-eq type', b2)):
+        for which, b in (('structural-eq type', b1), ('value-eq type', b2), ('type with shared member values', b3)):
+            if 'skipped' in b or 'badjson' in b: continue
             pb = proj_eval('C15', b)
             if pb != pm:
                 res.corr_fail.append({'suite': name, 'mode': 'generic', 'case': c, 'real': b, 'model': m}); info['corr_fail'] += 1
@@ -634,15 +637,21 @@ def ladder_suite(ctx, name, lines, res):
     if not lines: return
     """harness only, one process per case (isolation): outcome must be ok/err within the time limit"""
     info = collections.Counter()
+    harness_limit = set()
     for ln in lines:
         c = json.loads(ln)
         mode = c['mode']
-        payload = c['q'] if mode == 'parse' else json.dumps({'q': c['q'], 'doc': c['doc']})
+        if c['shape'].startswith('deep-doc-') and c['depth'] in harness_limit and c['shape'] != 'deep-doc-control':
+            res.stats['skip:document_too_deep_for_the_harness'] += 1; continue
+        payload = c['q'] if mode == 'parse' else json.dumps({k: c[k] for k in ('q', 'doc', 'wrap', 'dup') if k in c})
         out = run_lines(HBIN_LADDER if os.path.exists(HBIN_LADDER) else HBIN, mode, [payload], timeout=15)
         r = json.loads(out[0])
         res.stats['cases'] += 1; info['cases'] += 1
         st = status_of(r); res.stats['ladder_' + st] += 1
         res.nontrivial.add(chash([c['shape'], c['depth']]))
+        if c['shape'] == 'deep-doc-control':
+            if st != 'ok': harness_limit.add(c['depth'])
+            continue
         if st in ('panic', 'abort', 'timeout'):
             kfs = [k for k in ctx.my_kf if (k['class'] == 'deep_nesting' and c['shape'] in k.get('shapes', []) and c['depth'] >= k.get('min_depth', 1000) and st == 'abort')
                    or (k['class'] == 'exponential_backtracking' and c['shape'] in (k.get('shapes') or [k.get('shape')]) and c['depth'] >= k.get('min_depth', 1000) and st == 'timeout')]
@@ -747,6 +756,7 @@ def run(ctx, round_no=0):
         eval_suite(ctx, 'random', g('gen_eval.py', seed, 6000 * S), res)
         if first: ladder_suite(ctx, 'nesting-ladders', gen('gen_ladder.py', ctx.tier), res)
         if first: pumped_suite(ctx, 'long-queries', gen('gen_pumped.py', ctx.tier), res)
+        regex_suite(ctx, 'regex-patterns', g('gen_regex.py', seed, 6000 * S), res)      # patterns of every shape, valid or not: match/search must not panic
     elif p == 'C09':
         res.rule = ('(document, path, new value): Normalized Path of every kind of node (names with / ~ quotes digits blanks), one-step-off absent locations, '
                     'non-path queries; compared: found node by address, write result, whole document after the write; spec = lens laws on locations')
